@@ -140,4 +140,51 @@ theorem mask_lost_counterexample :
     readCell exVar.dt (diskFill exVar) exVar.missing (writeFill exVar) = none := by
   constructor <;> decide +kernel
 
+/-- giving a variable the `_FillValue` attribute netCDF adds does not change the fill chosen on disk -/
+theorem diskFill_withUfill (v : Var) : diskFill { v with ufill := diskFill v } = diskFill v := by
+  unfold diskFill
+  cases v.missing <;> cases v.fill <;> simp
+
+/-- what comes back from a save is again a variable netCDF can give back -/
+theorem varOk_withUfill (v : Var) (h : VarOk v) : VarOk { v with ufill := diskFill v } := by
+  have hd := diskFill_withUfill v
+  refine ⟨?_, h.attrs, h.plain⟩
+  intro c hc
+  have hc0 := h.cells c hc
+  cases c with
+  | some x =>
+    show diskFill { v with ufill := diskFill v } ≠ some x ∧ v.missing ≠ some x ∧
+      ¬ (diskFill { v with ufill := diskFill v } = none ∧ defaultFill v.dt = some x)
+    rw [hd]; exact hc0
+  | none =>
+    show (diskFill { v with ufill := diskFill v }).isSome = true ∨ (v.dims = [] ∧ (defaultFill v.dt).isSome = true)
+    rw [hd]; exact hc0
+
+/-- **second cycle (C07)**: what a save/open cycle returns is a fixed point — saving the reopened file again and
+reopening it returns the same file (dimensions, attributes, variables, masks, values and the `_FillValue`
+attributes netCDF added the first time), for all files the first cycle accepts. -/
+theorem second_cycle (fl : Flavour) (f : File) (hrep : ∀ v ∈ f.vars, representableDt fl v.dt = true)
+    (hg : ∀ a ∈ f.gattrs, skipped a.1 = false) (hv : ∀ v ∈ f.vars, VarOk v) :
+    ∃ g, roundtrip fl f = some g ∧ roundtrip fl g = some g := by
+  refine ⟨_, file_roundtrip fl f hrep hg hv, ?_⟩
+  have h2 := file_roundtrip fl { f with vars := f.vars.map (fun v => { v with ufill := diskFill v }) }
+    (by
+      intro v hvm
+      simp only [List.mem_map] at hvm
+      obtain ⟨w, hw, rfl⟩ := hvm
+      exact hrep w hw)
+    hg
+    (by
+      intro v hvm
+      simp only [List.mem_map] at hvm
+      obtain ⟨w, hw, rfl⟩ := hvm
+      exact varOk_withUfill w (hv w hw))
+  rw [h2]
+  congr 2
+  rw [List.map_map]
+  apply List.map_congr_left
+  intro v _
+  simp only [Function.comp]
+  rw [diskFill_withUfill]
+
 end Props.C07
